@@ -1,6 +1,9 @@
 package harness
 
-import "time"
+import (
+	"fmt"
+	"time"
+)
 
 func starts(ids ...string) []Item {
 	var it []Item
@@ -18,8 +21,10 @@ func insts(ids ...string) []InstSpec {
 	return s
 }
 
+type kfn func(*Scenario) *Scenario
+
 // S-elect(N): N instances start a few ms apart; run 3H+.
-func scnElect(name string, k func(*Scenario) *Scenario, ids ...string) *Scenario {
+func scnElect(name string, k kfn, ids ...string) *Scenario {
 	s := k(&Scenario{Name: name})
 	s.Insts = insts(ids...)
 	s.Script = starts(ids...)
@@ -27,20 +32,91 @@ func scnElect(name string, k func(*Scenario) *Scenario, ids ...string) *Scenario
 	return s.faultFree()
 }
 
+// S-failover-del: A leads, others follow; A.StopWithContext{DeleteKey}; run on.
+func scnFailoverDel(name string, k kfn, ids ...string) *Scenario {
+	s := k(&Scenario{Name: name})
+	s.Insts = insts(ids...)
+	s.Script = starts(ids...)
+	s.Script = append(s.Script, Item{At: 2*s.H + 53*ms, Actor: "stopA", Do: "stopctx", Inst: "A", DeleteKey: true})
+	s.Horizon = 2*s.H + 53*ms + 1200*ms
+	return s.faultFree()
+}
+
+// S-restart: A starts, is stopped (variant), starts again; B present.
+func scnRestart(name string, k kfn, stop Item) *Scenario {
+	s := k(&Scenario{Name: name})
+	s.Insts = insts("A", "B")
+	s.Script = starts("A", "B")
+	stop.At, stop.Actor, stop.Inst = 1*s.H+31*ms, "lifeA", "A"
+	s.Script = append(s.Script, stop, Item{At: 2*s.H + 77*ms, Actor: "lifeA", Do: "start", Inst: "A"})
+	s.Horizon = 2*s.H + 77*ms + 900*ms
+	return s.faultFree()
+}
+
+var stopVariants = []Item{
+	{Do: "stop"},
+	{Do: "stopctx"},
+	{Do: "stopctx", DeleteKey: true},
+	{Do: "stopctx", DeleteKey: true, WaitForDemote: true},
+	{Do: "stopctx", WaitForDemote: true, Timeout: 300 * ms},
+	{Do: "stopctx", DeleteKey: true, CtxTimeout: 400 * ms},
+}
+
+func stopName(it Item) string {
+	n := it.Do
+	if it.DeleteKey {
+		n += "+del"
+	}
+	if it.WaitForDemote {
+		n += "+wait"
+	}
+	if it.Timeout > 0 {
+		n += fmt.Sprintf("+to%v", it.Timeout)
+	}
+	if it.CtxTimeout > 0 {
+		n += fmt.Sprintf("+ctx%v", it.CtxTimeout)
+	}
+	return n
+}
+
+// S-stop(variant): the stop call is placed by the explorer (MoveScript) at every
+// choice point of a run in which A acquires, leads and B follows.
+func scnStop(name string, k kfn, stop Item, ids ...string) *Scenario {
+	s := k(&Scenario{Name: name})
+	s.Insts = insts(ids...)
+	s.Script = starts(ids...)
+	stop.At, stop.Actor, stop.Inst = 2*s.H+37*ms, "stopA", "A"
+	s.Script = append(s.Script, stop)
+	s.Horizon = 2*s.H + 37*ms + 800*ms
+	s = s.faultFree()
+	s.SplitApply = true
+	return s
+}
+
+func c02Plan(tier string) []PlanItem {
+	d := 1
+	if tier == "thorough" {
+		d = 2
+	}
+	items := []PlanItem{
+		{scnElect("elect2-K1", K1, "A", "B"), d + 1},
+		{scnElect("elect3-K1", K1, "A", "B", "C"), d},
+		{scnElect("elect2-K2", K2, "A", "B"), d},
+		{scnFailoverDel("failover-del2-K1", K1, "A", "B"), d},
+		{scnFailoverDel("failover-del3-K1", K1, "A", "B", "C"), d},
+	}
+	for _, sv := range stopVariants {
+		items = append(items, PlanItem{scnStop("stop/"+stopName(sv)+"-K1", K1, sv, "A", "B"), d})
+		items = append(items, PlanItem{scnRestart("restart/"+stopName(sv)+"-K1", K1, sv), d})
+	}
+	return items
+}
+
 func init() {
 	props["C02"] = &propDef{
-		Level: "exploration",
-		Rule:  "every execution (choice sequence) with at most D deviations from the default environment of each listed scenario; non-trivial = some instance reported leadership; distinct = distinct observation-trace hash",
+		Level:  "exploration",
+		Rule:   "every execution (choice sequence) with at most D deviations from the default environment of each listed scenario; non-trivial = some instance reported leadership; distinct = distinct observation-trace hash",
 		Assume: []string{"reference store semantics (validated by C14)", "participants bounded to 3 instances", "deviation bound as reported per scenario"},
-		Plan: func(tier string) []PlanItem {
-			d := 1
-			if tier == "thorough" {
-				d = 2
-			}
-			return []PlanItem{
-				{scnElect("elect2-K1", K1, "A", "B"), d + 1},
-				{scnElect("elect3-K1", K1, "A", "B", "C"), d},
-			}
-		},
+		Plan:   c02Plan,
 	}
 }
